@@ -269,7 +269,7 @@ def checkIdle (cfg : Cfg) (st : State) : Bool :=
 /-! ### `_process_add_event_tick` -/
 
 def waiterMatches (w : Waiter) (ev : Ev) : Bool :=
-  w.resolved.isNone && (ev.ty == w.waitTy) &&
+  w.resolved.isNone && !w.timedOut && (ev.ty == w.waitTy) &&
     (match w.req with | none => true | some v => ev.key == some v)
 
 /-- the inner `for wait_condition in wait_conditions` loop of one step -/
